@@ -426,6 +426,10 @@ def rule_r6(rep, program, et):
         def atom(e, pol):
             if isinstance(e, ast.Name) and not pol:
                 yield ("false", e.id)
+            # `X is None` known false / `X is not None` known true: X is a real object
+            if isinstance(e, ast.Compare) and len(e.ops) == 1 and isinstance(e.left, ast.Name) and isinstance(e.comparators[0], ast.Constant) and e.comparators[0].value is None:
+                if (isinstance(e.ops[0], ast.Is) and not pol) or (isinstance(e.ops[0], ast.IsNot) and pol):
+                    yield ("notnone", e.left.id)
 
         def kill(n, fact):
             from ..cfg import stmt_defs
@@ -445,10 +449,17 @@ def rule_r6(rep, program, et):
                     from ..cfg import stmt_defs
 
                     used = {u.id for u in uses(m2)} & guarded
+                    # testing a value against None is not a use of the object
+                    none_tests = {c.left.id for c in ast.walk(m2.ast) if isinstance(c, ast.Compare) and len(c.ops) == 1 and isinstance(c.ops[0], (ast.Is, ast.IsNot)) and isinstance(c.left, ast.Name) and isinstance(c.comparators[0], ast.Constant) and c.comparators[0].value is None} if m2.ast is not None else set()
+                    n_loads = {g: sum(1 for u in uses(m2) if u.id == g) for g in used}
+                    n_tests = {g: sum(1 for c in ast.walk(m2.ast) if isinstance(c, ast.Compare) and isinstance(c.left, ast.Name) and c.left.id == g and len(c.ops) == 1 and isinstance(c.ops[0], (ast.Is, ast.IsNot))) for g in used}
+                    used = {g for g in used if not (g in none_tests and n_loads[g] == n_tests[g])}
                     if not used:
                         continue
                     # a use inside `return terminate, None, None` style statements has no guarded names
-                    ok = ("false", flag) in IN[m2]
+                    # a failed build returns (True, None, None) - checked above - so a value known not to be
+                    # None was not produced by a failed build either
+                    ok = ("false", flag) in IN[m2] or any(("notnone", g) in IN[m2] for g in guarded)
                     r.inst({"function": fn.qualname, "use": norm(m2.ast)[:50], "guarded": ok})
                     if not ok:
                         r.violate(PROP, f"{fn.qualname}:unguarded-use:{sorted(used)[0]}:{norm(m2.ast)[:40]}", f"{sorted(used)} (result of a possibly failed _build_tree) is used without a dominating `not {flag}` test", node=m2.ast, file=fn.file)
